@@ -99,6 +99,19 @@ def corpus():
         cs.append({"steps": [["new", "Table:t1"], ["new", "Table:t2"], ["new", "QueryBuilder"], _call(2, "from_", _r(0)),
                              _call(3, "select", _s("a")), _call(4, "join", _r(1)), _call(6, m, *a1), _call(6, m, *a2)],
                    "theme": "corpus", "twin": False, "repeats": []})
+    # both at once: the Joiner's private query was handed out (j.query used as a WITH source) before j.X() renames the table
+    for m, a in (("on", [_crit("a", 0)]), ("on_field", [_s("a")]), ("using", [_s("a")]), ("cross", [])):
+        cs.append({"steps": [["new", "Table:t3"], ["new", "QueryBuilder"], _call(1, "from_", _r(0)), _call(2, "select", _s("*")),
+                             _call(3, "join", _r(0)), _call(3, "with_", _r(4), _s("w")), _call(5, m, *a)],
+                   "theme": "corpus", "twin": False, "repeats": []})
+    # a sub-query shown in a SELECT list re-renders when from_/join tag it (bystander and receiver)
+    sel_sub = [["new", "QueryBuilder"], _call(0, "from_", _s("u")), _call(1, "select", _s("x")),      # 2 = sub
+               ["new", "QueryBuilder"], _call(3, "from_", _s("t")), _call(4, "select", _r(2)),          # 5 = q showing sub
+               ["new", "QueryBuilder"], _call(6, "from_", _s("v")), _call(7, "select", _s("y"))]        # 8 = other query
+    cs.append({"steps": sel_sub + [_call(8, "from_", _r(2))], "theme": "corpus", "twin": False, "repeats": []})
+    cs.append({"steps": sel_sub + [_call(5, "from_", _r(2))], "theme": "corpus", "twin": False, "repeats": []})
+    cs.append({"steps": sel_sub + [_call(8, "join", _r(2))], "theme": "corpus", "twin": False, "repeats": []})
+    cs.append({"steps": sel_sub + [_call(5, "join", _r(2))], "theme": "corpus", "twin": False, "repeats": []})
     # the chained form q.join(x).on(...) as one call: same two argument writes, nothing else
     cs.append({"steps": [["new", "Table:t1"], ["new", "QueryBuilder"], _call(1, "from_", _r(0)), _call(2, "select", _s("a")),
                          ["call", 3, "join>on", [_r(0)], {}, [_crit("a", 0)], {}],
